@@ -16,7 +16,9 @@ RULE = ("Complete enumeration at line level through the real GherkinInMarkdownTo
         "column of the keyword; the role's own method and every other role's method); every step keyword x bullet {*,+,-,none} x "
         "spacing {one blank, none, two blanks} x indentation {0,2}; table rows at indentation 0..8 x {ordinary row, GFM separator "
         "row}; tag lines with 0..5 backtick-quoted tags, stray backticks and wide characters before them (names and columns).  Only "
-        "the methods the statement speaks about are called.  Distinct = (dialect, method, line).")
+        "the methods the statement speaks about are called; every call is made twice, on a matcher after reset() and on a matcher "
+        "of the same dialect that has seen all earlier lines of the enumeration without a reset (as inside one document).  "
+        "Distinct = (dialect, method, line).")
 ASSUMPTIONS = ["header prefix = 1..6 '#' followed by exactly one blank; two blanks after the '#' run and mixed separator rows are not specified and not tested",
                "for keywords that are prefixes of one another the first listed keyword (given/when/then/and/but order) is expected, as for classic Gherkin",
                "end-to-end Markdown parsing is documented as JavaScript-only and is outside the property"]
@@ -31,13 +33,32 @@ def token(line):
     return Token(GherkinLine(line, 1), {"line": 1})
 
 
+_SEQ = {}
+
+
 def call(m, method, line):
+    """The matcher method on one line: on `m` after reset(), and on a second matcher of the same dialect that is never
+    reset between lines (as within one document): recognition and token fields may not depend on the lines seen before."""
     t = token(line)
     m.reset()
     try:
         res = getattr(m, method)(t)
     except Exception as e:
         return "raised %r" % (e,), t
+    key = (type(m), m.dialect_name)
+    seq = _SEQ.get(key)
+    if seq is None:
+        seq = _SEQ[key] = type(m)(m.dialect_name)
+    t2 = token(line)
+    try:
+        res2 = getattr(seq, method)(t2)
+    except Exception as e:
+        return "raised %r on a matcher that has seen other lines before" % (e,), t2
+    fields = lambda x: (getattr(x, "matched_type", None), getattr(x, "matched_keyword", None), getattr(x, "matched_text", None),
+                        x.location.get("column"), getattr(x, "matched_items", None))
+    if bool(res2) != bool(res) or fields(t2) != fields(t):
+        # hand back the deviating observation: the caller's comparison with the expectation reports it
+        return bool(res2), t2
     return bool(res), t
 
 
